@@ -464,6 +464,23 @@ func (w *waBuilder) build(fr *waFrame, from int, ctx0 int) []waExit {
 		}
 		for i := idx; i < len(b.Instrs); i++ {
 			in := b.Instrs[i]
+			if st, isStore := in.(*ssa.Store); isStore {
+				// direct manipulation of the buffers (an inlined primitive): advancing the read cursor consumes
+				// that many bytes; appending to the write buffer emits them
+				if tok := w.directBufferToken(fr, st); tok != "" {
+					if tok == "L" {
+						ns := w.n.newState()
+						for _, c := range cur {
+							w.n.add(c, "L", ns)
+							w.n.add(c, "", ns)
+						}
+						cur = []int{ns}
+					} else {
+						emit(tok)
+					}
+				}
+				continue
+			}
 			ci, ok := in.(ssa.CallInstruction)
 			if !ok {
 				continue
@@ -787,4 +804,81 @@ func inBlockLoop(iff *ssa.If, v ssa.Value) bool {
 		l = outer
 	}
 	return false
+}
+
+// directBufferToken: the wire token of a store that moves the read cursor
+// (cursor = cursor + n) or grows the write buffer (buf = append(buf, ...)),
+// "" if the store is neither.
+func (w *waBuilder) directBufferToken(fr *waFrame, st *ssa.Store) string {
+	fa, ok := st.Addr.(*ssa.FieldAddr)
+	if !ok {
+		return ""
+	}
+	switch {
+	case isReadBufPtr(fa.X.Type()):
+		rbT := fa.X.Type().Underlying().(*types.Pointer).Elem()
+		cur := uniqueFieldWhere(rbT, func(t types.Type) bool { return isBasicKind(t, types.Int) })
+		if cur == "" || fieldName(fa.X.Type(), fa.Field) != cur {
+			return ""
+		}
+		if z, isK := constInt(st.Val); isK && z == 0 {
+			return "" // reset
+		}
+		bo, isBo := st.Val.(*ssa.BinOp)
+		if !isBo || bo.Op != token.ADD {
+			return "?cursor-assignment"
+		}
+		path := accessPath(fa)
+		isCur := func(v ssa.Value) bool {
+			ld, ok := v.(*ssa.UnOp)
+			return ok && ld.Op == token.MUL && accessPath(ld.X) == path
+		}
+		var delta ssa.Value
+		switch {
+		case isCur(bo.X):
+			delta = bo.Y
+		case isCur(bo.Y):
+			delta = bo.X
+		default:
+			return "?cursor-assignment"
+		}
+		return w.lengthToken(fr, delta)
+	case isWriteBufPtr(fa.X.Type()):
+		wbT := fa.X.Type().Underlying().(*types.Pointer).Elem()
+		bufF := uniqueFieldWhere(wbT, func(t types.Type) bool {
+			sl, ok := t.Underlying().(*types.Slice)
+			return ok && isBasicKind(sl.Elem(), types.Byte)
+		})
+		if bufF == "" || fieldName(fa.X.Type(), fa.Field) != bufF {
+			return ""
+		}
+		call, isCall := st.Val.(*ssa.Call)
+		if !isCall {
+			if sl, isSl := st.Val.(*ssa.Slice); isSl && sl.High != nil {
+				if z, isK := constInt(sl.High); isK && z == 0 {
+					return "" // truncation (Reset)
+				}
+			}
+			return "?write-buffer-assignment"
+		}
+		if isBuiltinCall(call, "append") && len(call.Call.Args) == 2 {
+			arg := call.Call.Args[1]
+			if sl, isSl := arg.(*ssa.Slice); isSl {
+				if a, isA := sl.X.(*ssa.Alloc); isA {
+					if at, isArr := a.Type().Underlying().(*types.Pointer).Elem().Underlying().(*types.Array); isArr && sl.Low == nil && sl.High == nil {
+						return fmt.Sprintf("B%d", at.Len()) // append(buf, b0, b1, ...)
+					}
+				}
+			}
+			return w.writeToken(fr, arg)
+		}
+		if sc := call.Call.StaticCallee(); sc != nil && qualName(sc) == "encoding/binary.AppendVarint" {
+			if w.smallValue(call.Call.Args[1], st.Parent()) {
+				return "Vs"
+			}
+			return "V"
+		}
+		return "?write-buffer-assignment"
+	}
+	return ""
 }
